@@ -128,6 +128,62 @@ theorem owner_count_one (n : Nat) (steps : List Step) (j : Nat) (hj : j < n) :
   rw [hp.count_eq, List.nodup_range.count]
   simp [hj]
 
+/-- **No two goroutines share send state.** Workers and batch readers that
+stage replies use pairwise different `udpTXSender` slots, all inside the array
+the engine allocated (`workers + sockets`): a burst's `sendmmsg` headers are
+never armed by two actors at once. -/
+theorem sender_slots_exclusive (workers sockets : Nat) (a b : Actor) (sa sb : Nat)
+    (ha : senderSlot workers a = some sa) (hb : senderSlot workers b = some sb)
+    (hra : ∀ i, a = .reader i → i < sockets) (hab : a ≠ b) :
+    sa ≠ sb ∧ sa < workers + sockets := by
+  cases a with
+  | cache => simp [senderSlot] at ha
+  | queue => simp [senderSlot] at ha
+  | reader i =>
+    have hi := hra i rfl
+    simp only [senderSlot, Option.some.injEq] at ha
+    cases b with
+    | cache => simp [senderSlot] at hb
+    | queue => simp [senderSlot] at hb
+    | reader j =>
+      simp only [senderSlot, Option.some.injEq] at hb
+      refine ⟨?_, by omega⟩
+      intro h
+      apply hab
+      have : i = j := by omega
+      rw [this]
+    | worker j =>
+      simp only [senderSlot] at hb
+      split at hb
+      · simp only [Option.some.injEq] at hb; exact ⟨by omega, by omega⟩
+      · cases hb
+  | worker i =>
+    simp only [senderSlot] at ha
+    split at ha
+    · simp only [Option.some.injEq] at ha
+      cases b with
+      | cache => simp [senderSlot] at hb
+      | queue => simp [senderSlot] at hb
+      | reader j =>
+        simp only [senderSlot, Option.some.injEq] at hb
+        exact ⟨by omega, by omega⟩
+      | worker j =>
+        simp only [senderSlot] at hb
+        split at hb
+        · simp only [Option.some.injEq] at hb
+          refine ⟨?_, by omega⟩
+          intro h
+          apply hab
+          have : i = j := by omega
+          rw [this]
+        · cases hb
+    · cases ha
+
+open SdnsVerif.Gen.C10 in
+theorem sender_slot_shape :
+    reader_sender_slot_past_workers = true ∧ senders_sized_workers_plus_readers = true := by
+  decide
+
 /-! ### the body lease -/
 
 /-- **A lease's capacity is pinned to what was declared.** When
@@ -496,6 +552,9 @@ example : Silent {} program { pkt := qResp, src := 2 } := by
 
 example : (lifeCycle {} program (recycled dirty) { pkt := qResp, src := 2 } (.ring false)).2 = [] :=
   no_leftover_reply {} program dirty [] _ _ (by right; right; left; decide)
+
+-- send slots: 4 workers, reader 0 → slot 4, worker 3 → slot 3
+example : senderSlot 4 (.reader 0) = some 4 ∧ senderSlot 4 (.worker 3) = some 3 := by decide
 
 -- ownership: two slabs, a take / enqueue / serve / finish walk and an attempted double release
 example : ((Sys.init 2).run [.take 0 0, .enqueue 0 0, .serveBegin 0 3, .finish 0 (.worker 3), .finish 0 (.worker 3)]).idle = [0, 1] := by
